@@ -147,13 +147,17 @@ Definition find_common_range (amp_bands : list (list band)) (si : band) : list b
   end.
 
 (* ---------------------------------------------------------------- create_oms_bitmap *)
-(* the map after the first band: [UNUSABLE]*(lo - prev - 1) + [FREE]*(hi - lo + 1) per further band, then
-   [UNUSABLE]*(n_max - last) (as fixed by a781ae5d).  Written by direct recursion; the code's left-nested
+(* the map after the first band: per further band [UNUSABLE]*(lo' - prev - 1) + [FREE]*(hi' - lo' + 1) with
+   lo' = max(lo, prev + 1), hi' = max(hi, lo' - 1) (5d131b9c: two bands closer than one slot do not count the shared
+   slot twice), then [UNUSABLE]*(n_max - last) (a781ae5d).  Written by direct recursion; the code's left-nested
    accumulation builds the same list. *)
 Fixpoint oms_tail (nmax prev : Z) (nb : list (Z * Z)) : list slot :=
   match nb with
   | [] => rep SU (nmax - prev)
-  | (lo, hi) :: t => rep SU (lo - prev - 1) ++ rep SF (hi - lo + 1) ++ oms_tail nmax hi t
+  | (lo, hi) :: t =>
+      let lo' := Z.max lo (prev + 1) in
+      let hi' := Z.max hi (lo' - 1) in
+      rep SU (lo' - prev - 1) ++ rep SF (hi' - lo' + 1) ++ oms_tail nmax hi' t
   end.
 Definition oms_cells (nmin nmax : Z) (nb : list (Z * Z)) : res (list slot) :=
   match nb with
@@ -331,25 +335,19 @@ Definition chain_wf_b (g : graph) (d : list line) : bool :=
   && forallb (fun n => negb (is_line_node n) || existsb (Z.eqb (uid n)) (flat_map lels d)) g.
 
 (* ---------------------------------------------------------------- checkable hypotheses of the theorems *)
-(* common bands sorted, pairwise disjoint, inside [f_min, f_max] *)
+(* common bands sorted, not overlapping (they may touch), inside [f_min, f_max] *)
 Fixpoint sorted_from_b (prev : Q) (common : list band) (f_max : Q) : bool :=
   match common with
   | [] => Qle_bool prev f_max
-  | (lo, hi) :: t => Qltb prev lo && Qle_bool lo hi && sorted_from_b hi t f_max
+  | (lo, hi) :: t => Qle_bool prev lo && Qle_bool lo hi && sorted_from_b hi t f_max
   end.
 Definition sorted_in_b (f_min f_max : Q) (common : list band) : bool :=
   match common with
   | [] => false
   | (lo, hi) :: t => Qle_bool f_min lo && Qle_bool lo hi && sorted_from_b hi t f_max
   end.
-(* facing edges of consecutive bands fall into different slots *)
-Fixpoint slot_apart_b (grid : Q) (common : list band) : bool :=
-  match common with
-  | b1 :: ((b2 :: _) as t) => (frequency_to_n (snd b1) grid <? frequency_to_n (fst b2) grid) && slot_apart_b grid t
-  | _ => true
-  end.
 Definition common_ok_b (g : graph) (si : band) (f_min f_max : Q) (els : list Z) : bool :=
-  sorted_in_b f_min f_max (elements_common_range g els si) && slot_apart_b default_grid (elements_common_range g els si).
+  sorted_in_b f_min f_max (elements_common_range g els si).
 (* all hypotheses of build_oms_list_ok on a concrete network *)
 Definition net_hyps_b (g : graph) (si : band) (d : list line) : bool :=
   chain_wf_b g d && negb (Nat.eqb (length d) 0) &&
